@@ -8,7 +8,11 @@ TypeConstructs == {"u64", "i64", "usize", "isize", "tuple2", "tuple3_nested", "t
 \* flatten_*_sas / _merged / _second: serde(flatten) next to typeshare(serialized_as) on the same field, merged into one
 \* #[serde(..)] list with other arguments, or in a second #[serde(..)] attribute: flatten is unsupported however it is accompanied
 FlattenConstructs == {"flatten_field", "flatten_vfield", "flatten_field_sas", "flatten_vfield_sas", "flatten_field_merged", "flatten_field_second"}
-ItemConstructs == FlattenConstructs \cup {"multi_tuple_struct", "multi_tuple_variant", "untagged_data_enum",
+\* multi_tuple_*_one_kept: a tuple struct / tuple variant with several fields of which all but ONE carry a skip marker. serde decides
+\* "newtype or tuple" by the number of fields WRITTEN, not by the number serialised: the value is still a (one-element) sequence, which
+\* no target type expresses - unsupported like any other multi-field tuple
+ItemConstructs == FlattenConstructs \cup {"multi_tuple_struct", "multi_tuple_variant", "multi_tuple_struct_one_kept", "multi_tuple_variant_one_kept",
+                   "multi_tuple_struct_one_kept_ts", "untagged_data_enum",
                    "tag_without_content", "content_without_tag", "tag_on_unit_enum", "content_on_unit_enum",
                    "const_string", "const_float", "const_expr", "const_bool", "const_path",
                    \* further initialisers that are not integer literals: a cast (which may change the value), bitwise not, a method
@@ -23,7 +27,7 @@ Unsupported == TypeConstructs \cup ItemConstructs
 
 \* where a skip marker can shelter the construct
 Skippable(c) == \/ c.construct \in TypeConstructs /\ c.carrier \in {"field", "vfield", "payload", "sas_field"}
-                \/ c.construct \in {"multi_tuple_variant"} \cup FlattenConstructs \cup SkipMakesUnsupported
+                \/ c.construct \in {"multi_tuple_variant", "multi_tuple_variant_one_kept"} \cup FlattenConstructs \cup SkipMakesUnsupported
 Sheltered(c) == c.skip # "none" /\ Skippable(c) /\ c.construct \notin SkipMakesUnsupported
 MustReject(c) == IF c.construct \in SkipMakesUnsupported THEN c.skip # "none" ELSE c.construct \in Unsupported /\ ~Sheltered(c)
 
